@@ -78,12 +78,12 @@ class EvolvingAnsatzMinimumEigensolverResultJSONEncoder(JSONEncoder):
             if isinstance(o.aux_operators_evaluated, list):
                 aux_operators_evaluated = {
                     "type": "list",
-                    "values": [self.default(value) for value in o.aux_operators_evaluated],
+                    "values": list(o.aux_operators_evaluated),
                 }
             elif isinstance(o.aux_operators_evaluated, dict):
                 aux_operators_evaluated = {
                     "type": "dict",
-                    "values": [[key, self.default(value)] for key, value in o.aux_operators_evaluated.items()],
+                    "values": [[key, value] for key, value in o.aux_operators_evaluated.items()],
                 }
             else:
                 aux_operators_evaluated = None
@@ -203,6 +203,9 @@ class EvolvingAnsatzMinimumEigensolverResultJSONDecoder(JSONDecoder):
             for key in object_dict.keys()
         ):
             return self.parse_evolving_ansatz_result(object_dict)
+
+        # Dictionaries which do not encode one of the classes above are plain data and must be kept as they are.
+        return object_dict
 
     @staticmethod
     def parse_complex_number(object_dict):
